@@ -247,6 +247,21 @@ func c15Case(r *obs.Run, i int) {
 		usedT = append(usedT, iv{a0, a0 + L})
 		usedQ = append(usedQ, iv{b0, p.B1})
 		pl.Plants = append(pl.Plants, p)
+		// a repeat family: the same source window copied once more, somewhere else in the query (exact copies, forward):
+		// both pairings are planted repeats in their own right
+		if !pl.Self && block == "" && p.Subs == 0 && p.Indels == 0 && !p.Reverse && rng.Intn(3) == 0 {
+			for try := 0; try < 50; try++ {
+				c0 := rng.Intn(pl.QLen - L - 8)
+				if !free(usedQ, c0, c0+L) {
+					continue
+				}
+				copy(Q[c0:], T[a0:a0+L])
+				usedQ = append(usedQ, iv{c0, c0 + L})
+				pl.Plants = append(pl.Plants, c15Plant{A0: a0, A1: a0 + L, B0: c0, B1: c0 + L})
+				r.Count("second_copies_of_a_source_window", 1)
+				break
+			}
+		}
 	}
 	// short repeats, just above the minimum hit length, whose only differences sit a few bases inside each end:
 	// the span of shared k-mers is then shorter than the minimum hit length although the repeat is not
